@@ -207,6 +207,44 @@ def arb_cases(tier, seed):
     return out
 
 
+def arb2_cases(tier, seed):
+    """one arbitrage agent, TWO index markets sharing a component, gaps on either side of the threshold in either direction:
+    the orders returned are the baskets of the indices, one after the other in market order"""
+    rng = random.Random(sub_seed(seed, "arb2"))
+    out = []
+    n = 150 if tier == "quick" else 3000
+    for i in range(n):
+        sim = Simulator(prng=random.Random(0))
+        base = rng.choice([96, 128, 200])
+        comps = []
+        for j in range(3):
+            p = float(base + rng.choice([-8, -4, 0, 4, 8]))
+            comps.append(market_with_history(sim, j, "c%d" % j, [p, p], p, running=True, trade=False))
+        idxs = []
+        for k, members in enumerate(([0, 1], [1, 2])):
+            ival = sum(comps[j].get_market_price() for j in members) / 2
+            gap = rng.choice([-6, -2, -0.5, 0, 0.5, 2, 6])
+            ipx = ival + gap
+            idx = IndexMarket(market_id=3 + k, prng=random.Random(9), simulator=sim, name="idx%d" % k)
+            idx.setup({"tickSize": 1.0, "marketPrice": ipx, "markets": ["c%d" % j for j in members]})
+            sim._add_market(idx)
+            idx._update_time(next_fundamental_price=ival)
+            idx._update_time(next_fundamental_price=ival)
+            idx._is_running = True
+            idxs.append((idx, members, ipx, ival))
+        thr = rng.choice([1.0, 4.0])
+        v = rng.choice([1, 3])
+        ttl = rng.choice([1, 4])
+        ag = ArbitrageAgent(agent_id=5, prng=random.Random(2), simulator=sim, name="arb")
+        ag.setup(settings={"cashAmount": 1000, "assetVolume": 10, "orderVolume": v, "orderThresholdPrice": thr, "orderTimeLength": ttl},
+                 accessible_markets_ids=[0, 1, 2, 3, 4])
+        st, orders = call(ag, comps + [x[0] for x in idxs])
+        pok = all(o.price == sim.id2market[o.market_id].get_market_price() for o in orders)
+        out.append({"c": "arb2", "aid": 5, "thr": fine(thr), "v": v, "ttl": ttl, "out": st, "ords": summarize(ag, orders), "pok": bool(pok),
+                    "idxs": [[int(x[0].market_id), fine(x[2]), fine(x[3]), list(x[1])] for x in idxs]})
+    return out
+
+
 # ------------------------------------------------------------------------------------------------ market share FCN
 def share_cases(tier, seed):
     rng = random.Random(sub_seed(seed, "share"))
@@ -226,4 +264,5 @@ def share_cases(tier, seed):
 
 
 def all_cases(tier, seed):
-    return {"fcn": fcn_cases(tier, seed), "mm": mm_cases(tier, seed), "arb": arb_cases(tier, seed), "share": share_cases(tier, seed)}
+    return {"fcn": fcn_cases(tier, seed), "mm": mm_cases(tier, seed), "arb": arb_cases(tier, seed), "arb2": arb2_cases(tier, seed),
+            "share": share_cases(tier, seed)}
